@@ -141,7 +141,7 @@ PROPS = {
     },
     "C08": {
         "props_file": "Props/C08.v",
-        "theorems": ["c08_creates_are_requests", "c08_request_sound", "c08_no_request_for_live_or_succeeded", "c08_gate", "c08_gate_means", "c08_stop_when_complete"],
+        "theorems": ["c08_creates_are_requests", "c08_request_sound", "c08_no_request_for_live_or_succeeded", "c08_gate", "c08_gate_means", "c08_stop_when_complete", "c08_created_names_bounded"],
         "families": [{"name": "jobsync", "n_quick": 120, "n_thorough": 3000, "shard_cap": 40}, {"name": "jobpure", "n_quick": 800, "n_thorough": 40000}],
         "rule": JOBSYNC_RULE,
         "trusted": JOB_TRUSTED + JOBSYNC_TRUSTED,
